@@ -131,6 +131,12 @@ CHECKS['C16'] = dict(
          'the declared edit applied at the matched atoms, conserving atoms per element. Exploration.',
     note='Trusted: RDKit AddHs/SMILES reading; networkx isomorphism. Reference matches come from vlib/ringref.py (C08 compares it with the library).',
     ref='DESIGN.md C16')
+CHECKS['C17'] = dict(
+    technique='Hypothesis seed sets x rule sets (reaction SMARTS or equivalent RING text), differential against an independent breadth-first closure on an own graph model; step-capped termination',
+    text='Seed sets of 1-2 small neutral molecules and 1-3 rules from a pool of scission / bond-order rules (each as SMARTS or RING text) are expanded by GenerateRxnNet; the canonicalised result must contain every seed, '
+         'equal the reference closure as a set, list nothing twice, and finish within 10x the reference closure size in rule applications (counted through a proxy rule object). Exploration.',
+    note='Trusted: RDKit ChemicalReaction for SMARTS rules, AddHs; networkx WL hash for species identity. Radicals are the valence deficit; charged species out of domain.',
+    ref='DESIGN.md C17')
 NOT_YET = {}
 
 def main():
